@@ -3,6 +3,7 @@ import ExprModel.Proofs.RefineLoopAll
 import ExprModel.Proofs.RefineExample
 import ExprModel.Proofs.RefineFloats
 import ExprModel.Api.Pipeline
+import ExprModel.Proofs.RefineBenignAll
 /-
 C01 — Compiled evaluation conforms to the language definition.
 
@@ -217,6 +218,59 @@ example (c : Cfg) : ∃ N, ∀ fuel, N ≤ fuel →
     RunAgrees (run c (progOf exCompiledA) fuel) (Spec.run (specOf c) none exTreeA) :=
   run_conforms_stageA {} exTreeA exCompiledA (fun _ => False) c exA_compiles (fun _ _ h => h.elim) exA_floats
     exA_good exA_fits (fun h => by cases h)
+
+/-! ### C05: a compiled program never pops an empty stack and never runs off its code
+
+`Benign e`: `e` is one of the language's own failure classes (type, index, divzero, budget, call).  The VM
+model has three more — `underflow` (pop of an empty stack, missing scope), `badop` (unknown opcode, operand or
+jump outside the program) and `fuel` — and a run of a compiled program never ends in one of them: the run
+fails exactly when the language definition does, and the definition has no such failure (`eval_benign`).
+`WorldOK`: environment functions themselves fail with a language class (a panic inside one is `call`). -/
+
+theorem spec_run_benign (cfg : CompCfg) (n : Node) (cp : Compiled) (c : Cfg)
+    (hc : compileProgram cfg n = .ok cp) (hfl : floatsOK n = true) (hg : Good (SmallColl c) n)
+    (hw : WorldOK c.world) : ∀ e, (Spec.run (specOf c) cfg.cast n).1 = .error e → Benign e := by
+  unfold compileProgram at hc
+  rw [bind_ok] at hc
+  obtain ⟨⟨code, p⟩, hcn, _⟩ := hc
+  have hinv : PoolInv (LitIn (floatBits n)) {} := ⟨fun i w h => by simp at h, fun o h => by cases h⟩
+  have hcomp := (compile_compiles cfg _ (floatsOK_spec hfl).1 n {} code p hcn hinv (floatsOK_spec hfl).2).comp
+    p.consts (PoolExt.refl p)
+  have hb := eval_benign (sc := specOf c) hw rfl n code [] hcomp hg
+  intro e he
+  cases hev : eval (specOf c) [] n {} with
+  | mk r σ' =>
+  rw [specRun_eq _ _ _ _ _ hev] at he
+  cases r with
+  | error e' =>
+    have : e' = e := by cases hcast : cfg.cast <;> (rw [hcast] at he; cases he; rfl)
+    subst this
+    exact hb _ _ _ hev
+  | ok v =>
+    cases hcast : cfg.cast with
+    | none => rw [hcast] at he; cases he
+    | some t => rw [hcast] at he; exact castV_benign t v e he
+
+theorem no_underflow (cfg : CompCfg) (n : Node) (cp : Compiled) (c : Cfg)
+    (hc : compileProgram cfg n = .ok cp) (hfl : floatsOK n = true) (hfit : FitsU16 cp.code)
+    (henv : EnvOK c cfg) (hg : Good (SmallColl c) n) (hw : WorldOK c.world) :
+    ∃ N, ∀ fuel, N ≤ fuel → ∀ e, (run c (progOf cp) fuel).1 = .error e →
+      Benign e ∧ e ≠ .underflow ∧ e ≠ .badop ∧ e ≠ .fuel := by
+  obtain ⟨N, hN⟩ := run_conforms_checked cfg n cp c hc hfl hfit henv hg
+  refine ⟨N, fun fuel hf e he => ?_⟩
+  have hb := spec_run_benign cfg n cp c hc hfl hg hw e (by rw [← (hN fuel hf).1]; exact he)
+  refine ⟨hb, ?_, ?_, ?_⟩ <;> (rintro rfl; rcases hb with h | h | h | h | h <;> cases h)
+
+example : WorldOK { call := fun id _ => if id == "Fail" then .error .call else .ok .nil,
+                    regexMatch := fun _ _ => none, pow := fun a _ => a } := by
+  intro id args e h
+  dsimp only at h
+  split at h <;> cases h
+  exact .inr (.inr (.inr (.inr rfl)))
+
+example (c : Cfg) (hw : WorldOK c.world) : ∃ N, ∀ fuel, N ≤ fuel → ∀ e, (run c (progOf exCompiled) fuel).1 = .error e →
+    Benign e ∧ e ≠ .underflow ∧ e ≠ .badop ∧ e ≠ .fuel :=
+  no_underflow {} exTree exCompiled c ex_compiles (by decide) ex_fits (fun h => by cases h) (ex_good c) hw
 
 /-! ### `expr.Eval`: source text to result through every model stage
 
